@@ -2426,6 +2426,15 @@ func (s *scanner) processScannedFiles(entryPointMeta []graph.EntryPoint) []scann
 			continue
 		}
 
+		// Skip JavaScript stubs for CSS files that were generated below by an
+		// earlier iteration of this loop. During an incremental build a stub can
+		// reuse a source index that is smaller than the index of a newly-added
+		// file, in which case this loop would otherwise visit the stub and
+		// generate a duplicate metafile entry for the CSS file.
+		if repr, ok := result.file.inputFile.Repr.(*graph.JSRepr); ok && repr.CSSSourceIndex.IsValid() {
+			continue
+		}
+
 		sb := strings.Builder{}
 		isFirstImport := true
 
